@@ -140,6 +140,17 @@ func BuildMsg(m *abs.Msg) (*message.IKEMessage, error) {
 	}, nil
 }
 
+// BuildPayloadsIn lays all byte fields of the payloads out inside buf (consecutive views, in payload order), as an
+// application does that answers with views of a datagram it received (echoed cookies, vendor ids, nonces) without
+// copying them first.  buf must have room (Size(ps)); its length is ignored.
+func BuildPayloadsIn(ps []abs.Payload, buf []byte) (message.IKEPayloadContainer, error) {
+	a := &arena{mode: LayoutArena, buf: buf[:0], tp: map[uint8][]*message.Transform{}}
+	return buildPayloads(ps, a)
+}
+
+// Size is the number of octets BuildPayloadsIn needs.
+func Size(ps []abs.Payload) int { return absSize(ps) }
+
 func BuildPayloads(ps []abs.Payload) (message.IKEPayloadContainer, error) {
 	return buildPayloads(ps, newArena(layoutOf(ps), absSize(ps)))
 }
